@@ -190,6 +190,17 @@ def impl_main(payload):
         n = g.get_number_local_optimization_params()
         # the AGraph renumbers constants in stack order: use its own string so that constants and stack agree
         g.set_local_optimization_params([rng.choice(CONSTS) for _ in range(n)])
+        if n > 0:
+            # the string printed AFTER a refit shows the constants the equation holds now, whatever was printed before
+            for fmt in ("sympy", "console"):
+                g.get_formatted_string(fmt)
+            newc = [rng.choice(CONSTS) for _ in range(n)]
+            g.set_local_optimization_params(newc)
+            for fmt in ("sympy", "console"):
+                if g.get_formatted_string(fmt) != get_formatted_string(fmt, g._simplified_command_array, tuple(newc)):
+                    viol.append("an equation printed %r, was given the constants %r and prints %r again; a fresh print gives %r"
+                                % (fmt, newc, g.get_formatted_string(fmt), get_formatted_string(fmt, g._simplified_command_array, tuple(newc))))
+                    break
         s2 = g.get_formatted_string("sympy")
         strings.append(s2)
         ref = g.evaluate_equation_at(X)
